@@ -489,4 +489,238 @@ theorem processIo_ioStep (s t : Sch) (h : processIo s = .ok t) : IoStep s t := b
       ⟨rfl, rfl, rfl, rfl, rfl, rfl, fun _ hp => .inl hp⟩
     exact (h0.trans h1).trans h2
 
+/-! ### `process_io`: no reader is left on a closed end -/
+
+/-- keys strictly ascending (`BTreeMap`) -/
+def KS {α : Type} (l : List (Nat × α)) : Prop := (l.map (·.1)).Pairwise (· < ·)
+
+theorem mget_minsert {α : Type} (k k' : Nat) (v : α) (l : List (Nat × α)) :
+    mget k (minsert k' v l) = if k = k' then some v else mget k l := by
+  induction l with
+  | nil => simp [minsert, mget]
+  | cons q l ih =>
+    obtain ⟨a, w⟩ := q
+    unfold minsert
+    by_cases h1 : k' < a
+    · simp only [h1, if_true]
+      by_cases hk : k = k'
+      · simp [mget, hk]
+      · simp [mget, hk]
+    · by_cases h2 : k' = a
+      · subst h2
+        simp only [Nat.lt_irrefl, if_false, if_true]
+        by_cases hk : k = k' <;> simp [mget, hk]
+      · simp only [h1, h2, if_false]
+        by_cases hk : k = k'
+        · subst hk
+          have : ¬ k = a := h2
+          simp [mget, this, ih]
+        · by_cases ha : k = a
+          · simp [mget, ha, hk]
+            intro e; exact absurd (ha ▸ e.symm ▸ rfl : k = k') hk
+          · simp [mget, ha, ih, hk]
+
+theorem keys_minsert {α : Type} (k : Nat) (v : α) (l : List (Nat × α)) (x : Nat) :
+    x ∈ (minsert k v l).map (·.1) ↔ x = k ∨ x ∈ l.map (·.1) := by
+  induction l with
+  | nil => simp [minsert]
+  | cons q l ih =>
+    obtain ⟨a, w⟩ := q
+    unfold minsert
+    by_cases h1 : k < a
+    · simp [h1]
+    · by_cases h2 : k = a
+      · subst h2; simp
+      · simp only [h1, h2, if_false, List.map_cons, List.mem_cons, ih]
+        constructor
+        · rintro (h | h | h) <;> simp [h]
+        · rintro (h | h | h) <;> simp [h]
+
+theorem KS_minsert {α : Type} (k : Nat) (v : α) (l : List (Nat × α)) (h : KS l) : KS (minsert k v l) := by
+  induction l with
+  | nil => simp [KS, minsert]
+  | cons q l ih =>
+    obtain ⟨a, w⟩ := q
+    unfold KS at h
+    simp only [List.map_cons, List.pairwise_cons] at h
+    unfold minsert
+    by_cases h1 : k < a
+    · simp only [h1, if_true]
+      unfold KS
+      simp only [List.map_cons, List.pairwise_cons, List.mem_cons]
+      refine ⟨?_, h⟩
+      rintro x (e | e)
+      · omega
+      · have := h.1 x e; omega
+    · by_cases h2 : k = a
+      · subst h2
+        simp only [Nat.lt_irrefl, if_false, if_true]
+        unfold KS
+        simp only [List.map_cons, List.pairwise_cons]
+        exact h
+      · simp only [h1, h2, if_false]
+        unfold KS
+        simp only [List.map_cons, List.pairwise_cons]
+        refine ⟨?_, ih h.2⟩
+        intro x hx
+        rcases (keys_minsert k v l x).mp hx with e | e
+        · omega
+        · exact h.1 x e
+
+theorem mget_of_mem {α : Type} (l : List (Nat × α)) (h : KS l) (a : Nat) (v : α) (hm : (a, v) ∈ l) :
+    mget a l = some v := by
+  induction l with
+  | nil => cases hm
+  | cons q l ih =>
+    obtain ⟨b, w⟩ := q
+    unfold KS at h
+    simp only [List.map_cons, List.pairwise_cons] at h
+    rcases List.mem_cons.mp hm with e | e
+    · cases e; simp [mget]
+    · have hb : b < a := h.1 a (List.mem_map_of_mem (f := (·.1)) e)
+      have : ¬ a = b := by omega
+      simp only [mget, this, if_false]
+      exact ih h.2 e
+
+/-- not waiting for a read -/
+def NotRead (o : Option VmState) : Prop := ∀ fd len, o ≠ some (.waitRead fd len)
+
+theorem serveClosed_post : ∀ (l : List Nat) (s t : Sch), KS s.states → serveClosed l s = .ok t →
+    KS t.states ∧ (∀ vm, NotRead (mget vm s.states) → NotRead (mget vm t.states)) ∧
+    (∀ vm ∈ l, NotRead (mget vm t.states)) := by
+  intro l
+  induction l with
+  | nil =>
+    intro s t hk h
+    simp [serveClosed] at h
+    subst h
+    exact ⟨hk, fun _ h => h, by simp⟩
+  | cons vm rest ih =>
+    intro s t hk h
+    unfold serveClosed at h
+    have step : ∀ s1 : Sch, ensureInst [vm] s = .ok s1 →
+        serveClosed rest { s1 with states := minsert vm .runnable s1.states } = .ok t →
+        KS t.states ∧ (∀ x, NotRead (mget x s.states) → NotRead (mget x t.states)) ∧
+          (∀ x ∈ vm :: rest, NotRead (mget x t.states)) := by
+      intro s1 he h'
+      have hst : s1.states = s.states := (ensureInst_core he).2.2.2.1
+      obtain ⟨k1, k2, k3⟩ := ih _ t (by simp only [hst]; exact KS_minsert _ _ _ hk) h'
+      have hins : ∀ x, NotRead (mget x s.states) → NotRead (mget x (minsert vm VmState.runnable s1.states)) := by
+        intro x hx fd len
+        rw [mget_minsert, hst]
+        by_cases e : x = vm
+        · simp [e]
+        · simp only [e, if_false]; exact hx fd len
+      refine ⟨k1, fun x hx => k2 x (hins x hx), ?_⟩
+      intro x hx
+      rcases List.mem_cons.mp hx with e | e
+      · subst e
+        apply k2
+        intro fd len
+        simp only [mget_minsert, if_true]
+        simp
+      · exact k3 x e
+    split at h
+    · split at h
+      · cases h
+      · rename_i s1 he; exact step s1 he h
+    · split at h
+      · cases h
+      · rename_i s1 he; exact step s1 he h
+    · rename_i hne1 hne2
+      obtain ⟨k1, k2, k3⟩ := ih s t hk h
+      refine ⟨k1, k2, ?_⟩
+      intro x hx
+      rcases List.mem_cons.mp hx with e | e
+      · subst e
+        apply k2
+        intro fd len hh
+        exact hne1 fd len hh
+      · exact k3 x e
+
+theorem servePairs_post : ∀ (l : List Pair) (s t : Sch), KS s.states → servePairs l s = .ok t →
+    KS t.states ∧ (∀ vm, NotRead (mget vm s.states) → NotRead (mget vm t.states)) := by
+  intro l
+  induction l with
+  | nil =>
+    intro s t hk h
+    simp [servePairs] at h
+    subst h
+    exact ⟨hk, fun _ h => h⟩
+  | cons p rest ih =>
+    intro s t hk h
+    unfold servePairs at h
+    split at h
+    · cases h
+    · rename_i s1 he
+      simp only at h
+      have hst : s1.states = s.states := (ensureInst_core he).2.2.2.1
+      have hk1 : KS (minsert p.reader VmState.runnable s1.states) := by rw [hst]; exact KS_minsert _ _ _ hk
+      have hn1 : ∀ x, NotRead (mget x s.states) → NotRead (mget x (minsert p.reader VmState.runnable s1.states)) := by
+        intro x hx fd len
+        rw [mget_minsert, hst]
+        by_cases e : x = p.reader
+        · simp [e]
+        · simp only [e, if_false]; exact hx fd len
+      split at h
+      · obtain ⟨k1, k2⟩ := ih _ t (by simp only; exact KS_minsert _ _ _ hk1) h
+        refine ⟨k1, fun x hx => k2 x ?_⟩
+        intro fd len
+        simp only
+        rw [mget_minsert]
+        by_cases e : x = p.writer
+        · simp [e]
+        · simp only [e, if_false]; exact hn1 x hx fd len
+      · obtain ⟨k1, k2⟩ := ih _ t (by simp only; exact KS_minsert _ _ _ hk1) h
+        refine ⟨k1, fun x hx => k2 x ?_⟩
+        intro fd len
+        simp only
+        rw [mget_minsert]
+        by_cases e : x = p.writer
+        · simp [e]
+        · simp only [e, if_false]; exact hn1 x hx fd len
+
+/-- after `process_io` no VM waits for a read on a pipe whose other end is closed -/
+theorem processIo_no_closed_reader (s t : Sch) (hk : KS s.states) (h : processIo s = .ok t) :
+    closedReaders t = [] := by
+  have hio := processIo_ioStep s t h
+  unfold processIo at h
+  simp only at h
+  split at h
+  · cases h
+  · rename_i s1 he
+    obtain ⟨a1, a2, a3⟩ := serveClosed_post _ _ s1 (show KS ({ s with log := Out.ioScan (closedReaders s ++ closedWriters s).length (ioPairs s).length :: s.log } : Sch).states from hk) he
+    obtain ⟨b1, b2⟩ := servePairs_post _ s1 t a1 h
+    apply List.eq_nil_iff_forall_not_mem.mpr
+    intro vm hvm
+    unfold closedReaders at hvm
+    obtain ⟨⟨x, st⟩, hp, hf⟩ := List.mem_filterMap.mp hvm
+    cases st with
+    | waitRead fd len =>
+      simp only at hf
+      by_cases ho : mhas (otherFd fd) t.fds = true
+      · simp [ho] at hf
+      · simp only [ho, Bool.false_eq_true, if_false, Option.some.injEq] at hf
+        subst hf
+        -- the entry was there before, with the other end closed: the VM was in the closed list
+        have hs : (x, VmState.waitRead fd len) ∈ s.states := by
+          rcases hio.2.2.2.2.2.2 _ hp with e | e | ⟨_, _, _, e⟩
+          · exact e
+          · cases e
+          · cases e
+        have hfd : t.fds = s.fds := hio.2.2.2.1
+        have hc : x ∈ closedReaders s := by
+          unfold closedReaders
+          apply List.mem_filterMap.mpr
+          refine ⟨(x, VmState.waitRead fd len), hs, ?_⟩
+          simp only
+          rw [← hfd]
+          simp [ho]
+        have hn := b2 x (a3 x (List.mem_append_left _ hc))
+        exact hn fd len (mget_of_mem _ b1 x _ hp)
+    | runnable => simp at hf
+    | terminated => simp at hf
+    | wait _ => simp at hf
+    | waitWrite _ _ _ => simp at hf
+
 end CkbVerif.SchedBook
